@@ -5,3 +5,4 @@ import PyhfDriver.InferOps
 import PyhfDriver.PatchOps
 import PyhfDriver.WsOps
 import PyhfDriver.EventOps
+import PyhfDriver.ProbOps
